@@ -29,7 +29,7 @@ SCRATCH_BASE = os.environ.get('BIOSIM_SCRATCH') or (
     '/dev/shm' if os.path.isdir('/dev/shm') and os.access('/dev/shm', os.W_OK)
     else os.environ.get('TMPDIR', '/var/tmp'))
 CRASH_EXIT = 70
-SESSION_TIMEOUT = float(os.environ.get('BIOSIM_SESSION_TIMEOUT', '60'))
+SESSION_TIMEOUT = float(os.environ.get('BIOSIM_SESSION_TIMEOUT', '240'))
 
 
 # --------------------------------------------------------------------------- seeds
